@@ -20,3 +20,20 @@ package sock
 //@   props C03 C14 C16
 //@   trusted
 //@   modifies ghost eff.sock
+
+// One request over a DAG's unix socket: the ghost record is what the peer (if any) answered.
+//@ ghost sockq.calls int
+//@ ghost sockq.err error
+//@ ghost sockq.body string
+//@ ghost sockq.method string
+//@ ghost sockq.path string
+//@ fn NewClient(addr) (c)
+//@   props C08 C16 C20
+//@   trusted
+//@   modifies heap(alloc)
+//@   nonnilresult
+//@ fn (*Client).Request(c, method, url) (ret, err)
+//@   props C08 C16 C20
+//@   trusted
+//@   modifies ghost sockq.calls, ghost sockq.err, ghost sockq.body, ghost sockq.method, ghost sockq.path
+//@   ensures sockq.calls == old(sockq.calls) + 1 && sockq.err == err && sockq.body == ret && sockq.method == method && sockq.path == url
